@@ -44,14 +44,18 @@ def names_of(s):
 
 
 def sysof(v):
+    """coordinate system of a vector; ("inconsistent: ...",) when the value claims a dimension whose coordinates it does not carry"""
     from vector._methods import (AzimuthalXY, LongitudinalEta, LongitudinalTheta, LongitudinalZ, TemporalT, _aztype, _ltype, _ttype)
-    s = ["xy" if _aztype(v) is AzimuthalXY else "rhophi"]
-    d = vector.dim(v)
-    if d >= 3:
-        lt = _ltype(v)
-        s.append("z" if lt is LongitudinalZ else "theta" if lt is LongitudinalTheta else "eta")
-    if d == 4:
-        s.append("t" if _ttype(v) is TemporalT else "tau")
+    try:
+        s = ["xy" if _aztype(v) is AzimuthalXY else "rhophi"]
+        d = vector.dim(v)
+        if d >= 3:
+            lt = _ltype(v)
+            s.append("z" if lt is LongitudinalZ else "theta" if lt is LongitudinalTheta else "eta")
+        if d == 4:
+            s.append("t" if _ttype(v) is TemporalT else "tau")
+    except Exception as e:
+        return (f"inconsistent: {type(e).__name__}: {str(e)[:120]}",)
     return tuple(s)
 
 
